@@ -35,6 +35,12 @@ for m in sorted(glob.glob('seeded/*/meta.json')):
     ok = d.get('confirmed', {})
     conf = all(ok.get(x) for x in ('demo_passes_without_change', 'demo_fails_with_change', 'existing_lib_tests_pass_with_change'))
     rows.append(f'| `{name}` | {d.get("property")} | {cell(d.get("summary",""))[:260]} | {cell(d.get("needs",""))[:200]} | {", ".join(d.get("detected_by", [])) or "**missed**"} | {"" if conf else "not fully confirmed; "}{cell(d.get("note",""))[:260]} |')
+missed = [json.load(open(m)) for m in sorted(glob.glob('seeded/*/meta.json'))]
+n_all = len(missed)
+first_missed = [d for d in missed if 'missed' in d.get('note', '').lower()]
+still = [d for d in missed if not d.get('detected_by')]
+rows.append('')
+rows.append(f'{n_all} seeded changes in total; {len(first_missed)} of them were missed by the check as it was when they arrived (properties ' + ', '.join(sorted({d["property"] for d in first_missed})) + f') and are detected after the generator was strengthened as the remark says; {len(still)} are still undetected.')
 put('seeds-table', '\n'.join(rows))
 # what runs, from the evidence files
 rows = ['| property | parts (cases per quick run) | non-trivial / evaluations in the committed quick evidence |', '|---|---|---|']
